@@ -135,7 +135,7 @@ impl<'a> Gen<'a> {
         }
         let d = depth - 1;
         match ty {
-            Ty::Num => match self.rng.below(16) {
+            Ty::Num => match self.rng.below(17) {
                 0..=4 => {
                     let op = *self.rng.pick(&["+", "-", "*", "+", "-"]);
                     format!("{} {} {}", self.expr(Ty::Num, d), op, self.expr(Ty::Num, d))
@@ -152,7 +152,8 @@ impl<'a> Gen<'a> {
                     self.expr(Ty::Num, d),
                     self.expr(Ty::Num, d)
                 ),
-                12 if self.f.refactor => format!("math.sqrt({})", self.rng.pick(&["4", "9", "16", "0", "2.25"])),
+                12 if self.f.refactor => format!("math.sqrt({})", self.rng.pick(&["4", "9", "16", "0", "2.25", "4", "9"])),
+                15 if self.f.refactor => "(1 / math.sqrt(-0))".to_owned(),
                 13 => format!("ext_n({})", self.expr(Ty::Num, d)),
                 14 if self.f.luau => format!("({} :: number)", self.expr(Ty::Num, d)),
                 _ => format!("({} and {} or {})", self.expr(Ty::Bool, d), self.expr(Ty::Num, d), self.expr(Ty::Num, d)),
